@@ -101,6 +101,9 @@ def _worker_run(args):
     res["wall"] = time.time() - t0
     res["wpid"] = os.getpid()
     res["wseq"] = wseq
+    yr = sys.modules.get("ymc.yrun")
+    if yr is not None and hasattr(yr, "pop_cardlog"):
+        res["cards"] = yr.pop_cardlog()
     return res
 
 
@@ -233,6 +236,7 @@ def run_check(pid, tier="quick", seed=0, workers=None, replay=None, only=None):
     violations = []
     harness_errors = []
     info = {}
+    cardvals = {}
     outcomes = set()
     nontrivial = 0
     transitions = 0
@@ -255,6 +259,8 @@ def run_check(pid, tier="quick", seed=0, workers=None, replay=None, only=None):
             outcomes.add(oc)
         transitions += int(r.get("transitions", 1))
         sub += int(r.get("sub", 1))
+        for k, vals in (r.get("cards") or {}).items():
+            cardvals.setdefault(k, set()).update(vals)
         for k, val in (r.get("info") or {}).items():
             if isinstance(val, (int, float)):
                 if k.startswith("n_") or k.startswith("count_"):
@@ -413,6 +419,9 @@ def run_check(pid, tier="quick", seed=0, workers=None, replay=None, only=None):
         "new_violation_fingerprints": len(seen_fp),
         "measured": {k: info[k] for k in sorted(info)},
         "workers": workers,
+        # configuration-alphabet coverage, measured: which values every theory/observable card field took in the real runs of this check
+        "card_fields_varied": {k: {"distinct": len(v), "values": sorted(v)[:8]} for k, v in sorted(cardvals.items()) if len(v) > 1},
+        "card_fields_constant": {k: sorted(v)[0] for k, v in sorted(cardvals.items()) if len(v) == 1},
         "process_history_sweep": {
             "enabled": bool(sweep_chunks),
             "processes": len(sweep_chunks),
